@@ -177,7 +177,7 @@ def run(spec, ctx):
         case['c_reuse'] = rng.random() < 0.6
         case['k'] = spec['k']
         case['lm'] = rng.choice([2, 4, 8])
-        case['sims'] = rng.choice([1, 2, 3, 5])
+        case['sims'] = rng.choice([1, 2, 3, 5] * 5 + [33])
         check_case(case, ctx)
 
 
